@@ -9,7 +9,7 @@ Fault of one exchange() call (key = number of the call counted from `arm()`):
 
 * ("drop",)        the frame never reaches the tag, the reader runs into its timeout
 * ("corrupt", e)   the frame reaches the tag damaged: the tag does not execute it (a pending SECTOR SELECT is
-                   abandoned, the sector stays), the reader sees `e` in {"transmission", "protocol"} (damaged NAK)
+                   abandoned, the sector stays), the reader sees `e` in {"timeout", "transmission", "protocol"}
                    or, with e == "nak", a clean NAK
 * ("lost", e)      the tag executes the command, the answer is lost: the reader sees `e` in {"timeout",
                    "transmission", "protocol"}
@@ -42,18 +42,16 @@ class T2SectorSim(object):
         self.trace = []
         self.kinds = []          # kind of every exchange() call: 'ss1' 'ss2' 'read' 'write' 'other'
         self.senses = 0
-        # events no reader can handle (see Model/SectC03): unfaithful passive ack of packet 2; and the one the
-        # code as found does not handle: re-activation while the object believes another sector than 0
+        # event no reader can handle (see Model/SectC03): unfaithful passive ack of packet 2 (silence although the
+        # tag did not switch, or a clean NAK although it did)
         self.amb_ack = False
-        self.amb_sense = False
+        self.amb_sense = False          # kept for callers; a re-activation is handled by the code (belief := 0)
 
     def target(self):
         return nfc.clf.RemoteTarget("106A", sens_res=bytearray(b"\x44\x00"), sel_res=bytearray(b"\x00"),
                                     sdd_res=bytearray(self.sdd))
 
     def sense(self, *targets, **kw):
-        if self.believed() not in (None, 0):
-            self.amb_sense = True
         self.sector = 0
         self.pend = False
         self.senses += 1
@@ -109,17 +107,20 @@ class T2SectorSim(object):
     def exchange(self, data, timeout):
         if self.kind_of(bytes(data)) != "ss2":
             return self._exchange(data)
-        # SECTOR SELECT packet 2: was the passive acknowledgement faithful (silence <=> the tag switched)?
+        # SECTOR SELECT packet 2: was the passive acknowledgement faithful?  Unfaithful: silence although the tag did
+        # not switch, or a clean answer although it did.  A damaged answer is not ambiguous: the code forgets the sector.
         ntrace = len(self.trace)
-        silence = False
+        seen = "error"
         try:
-            return self._exchange(data)
+            rsp = self._exchange(data)
+            seen = "data"
+            return rsp
         except nfc.clf.TimeoutError:
-            silence = True
+            seen = "silence"
             raise
         finally:
             switched = len(self.trace) > ntrace
-            if switched != silence:
+            if (seen == "silence" and not switched) or (seen == "data" and switched):
                 self.amb_ack = True
 
     def _exchange(self, data):
